@@ -102,6 +102,15 @@ Proof. vm_compute. eexists. repeat split. Qed.
 Example C13_example_illegal :
   afirst_bad a0 [CbConnOpen 0; CbSessOpen 0 0; CbSessClose 0; CbPkt 0] 0 = Some 3.
 Proof. reflexivity. Qed.
+(* the session-open notification is delivered by the session's own goroutine: it may come after the close
+   notification of the connection that created the session (thorough-tier observation, 2026-09-23); it must still
+   name a connection that was opened, be followed by the session's close, and a request callback of the closed
+   connection inside the session stays illegal *)
+Example C13_example_late_session_open :
+  afirst_bad a0 [CbConnOpen 0; CbConnClose 0; CbSessOpen 0 0; CbSessClose 0] 0 = None
+  /\ afirst_bad a0 [CbConnOpen 0; CbConnClose 0; CbSessOpen 0 1; CbSessClose 0] 0 = Some 2
+  /\ afirst_bad a0 [CbConnOpen 0; CbConnClose 0; CbSessOpen 0 0; CbReqS 0 0] 0 = Some 3.
+Proof. repeat split. Qed.
 (* what the seeded regression C13-2 produces: OnSessionClose while the reader is inside OnPacketRTP, more
    frames delivered afterwards *)
 Example C13_example_seed :
